@@ -599,11 +599,25 @@ func genCurve() {
 	co := loadPkg("constants")
 	mi := loadPkg("mimc7")
 	var defs []def
-	qs, ok := evalString(co.vars["qString"], co.vars)
-	if !ok {
-		must(fmt.Errorf("constants: qString"))
+	// var Q, _ = new(big.Int).SetString(<string expression>, <base>): the string may be a named
+	// constant (qString), a literal or a concatenation; what counts is the initialiser of Q
+	qbase := 10
+	qs, ok := "", false
+	if call, isCall := co.vars["Q"].(*ast.CallExpr); isCall && len(call.Args) >= 1 {
+		qs, ok = evalString(call.Args[0], co.vars)
+		if len(call.Args) >= 2 {
+			if b, ok3 := evalInt(call.Args[1], co.vars); ok3 {
+				qbase = int(b.Int64())
+			}
+		}
 	}
-	defs = append(defs, def{"Q", "Z", leafTree(bigFromString(qs, 10, "qString"))})
+	if !ok {
+		qs, ok = evalString(co.vars["qString"], co.vars)
+	}
+	if !ok {
+		must(fmt.Errorf("constants: initialiser of Q"))
+	}
+	defs = append(defs, def{"Q", "Z", leafTree(bigFromString(qs, qbase, "Q"))})
 	for _, nm := range []string{"Zero", "One", "MinusOne"} {
 		call, ok := co.vars[nm].(*ast.CallExpr)
 		if !ok || len(call.Args) != 1 {
